@@ -5,7 +5,8 @@ import SSVerif.Generated.LogTables
 
 `dec` — decoder default (`decoder.c:267`, `logbase` default, shift 0);
 `s8b` — `lmath_8b` of the semi-continuous/PTM/multi-stream scorers (same base, `SENSCR_SHIFT`);
-`tst` — `tests/test_log_shifted.c`; `w1` — a small base with 1-byte table elements.
+`tst` — `tests/test_log_shifted.c`; `w1` — a small base with 1-byte table elements;
+`wb` — a base at the 1-byte/2-byte width boundary (`t[0] = 256`, `⌊log_b 2⌋ = 255`).
 Core Lean only (linked into `ssdriver`).
 -/
 namespace SSVerif.LogAdd
@@ -31,14 +32,18 @@ def cfgDec : Config := ⟨dec_baseNum, dec_baseDen, dec_shift, dec_effNum, dec_e
 def cfgS8b : Config := ⟨s8b_baseNum, s8b_baseDen, s8b_shift, s8b_effNum, s8b_effDen, s8b_width, s8b_size, s8b_zero, s8b_runs⟩
 def cfgTst : Config := ⟨tst_baseNum, tst_baseDen, tst_shift, tst_effNum, tst_effDen, tst_width, tst_size, tst_zero, tst_runs⟩
 def cfgW1 : Config := ⟨w1_baseNum, w1_baseDen, w1_shift, w1_effNum, w1_effDen, w1_width, w1_size, w1_zero, w1_runs⟩
+def cfgWb : Config := ⟨wb_baseNum, wb_baseDen, wb_shift, wb_effNum, wb_effDen, wb_width, wb_size, wb_zero, wb_runs⟩
 
-def configs : List (String × Config) := [("dec", cfgDec), ("s8b", cfgS8b), ("tst", cfgTst), ("w1", cfgW1)]
+def configs : List (String × Config) := [("dec", cfgDec), ("s8b", cfgS8b), ("tst", cfgTst), ("w1", cfgW1), ("wb", cfgWb)]
 
-/-- the element width `logmath_init` chooses (l.86-93) from `maxyx = ⌊log_b 2 + ½⌋ >> shift`:
-1 byte below 256, 2 bytes below 65536, else 4.  The model applies the same thresholds to the
-first table entry `t[0] = round(log_b 2 / 2^shift)` (equal to `maxyx` up to the rounding of the
-shift; that the result is the width the C code reports is checked per generated configuration,
-`Config.Checked.width_eq`, and on every run by the correspondence of the `cfg` line). -/
+/-- the element width `logmath_init` chooses (l.86-97): 1 byte below 256, 2 bytes below 65536,
+else 4, applied to the first (largest) table entry `t[0] = round(log_b 2 / 2^shift)`.  This is the
+repaired behaviour (fix D50): the pinned code floors the shift in its estimate
+(`round(log_b 2) >> shift`), which is one too small — and the entry wraps — when `shift > 0` and
+`log_b 2 / 2^shift` rounds up to 256 or 65536.  At shift 0 and away from those boundaries the
+two agree; `Config.Checked.width_eq` checks the reported width per generated configuration
+(`cfgWb` sits on the 1-byte boundary) and the correspondence of the `cfg` line checks it on
+every run, also for boundary bases at shifts 0/1/8/10. -/
 def widthOf (t0 : Nat) : Nat := if t0 < 256 then 1 else if t0 < 65536 then 2 else 4
 
 end SSVerif.LogAdd
